@@ -16,22 +16,6 @@ which for an unterminated buffer is `dest[dmax]` — the write side of this is C
 namespace SafeC.Props.C02
 open SafeC Gen
 
-theorem runs_of_AccS {α} {p : Prog α} {Q : α → (Nat → Nat) → Prop} {st : St} (h : AccS (Rd st) (Wr st) st.data p Q) :
-    Runs p st := by
-  obtain ⟨r, st', he, _, hs⟩ := h.sound st rfl (fun _ h => h) (fun _ h => h)
-  exact ⟨r, st', he, hs⟩
-
-theorem RD_of_RW {st : St} {p n : Nat} (h : RW st p n) : RD st p n := fun i hi => ⟨(h i hi).1, (h i hi).2.2⟩
-
-/-- the cells of the string at `p` (cut at `n`) are mapped and writable -/
-def StrWr (st : St) (p n : Nat) : Prop := ∀ a, Str st.data p n a → Wr st a
-
-theorem StrWr.of_RW_term {st : St} {p n : Nat} (h : RW st p n) (ht : Term st p n) (m : Nat) : StrWr st p m := by
-  intro a hs
-  obtain ⟨i, hi, h0⟩ := ht
-  obtain ⟨h1, h2⟩ := hs.of_term h0
-  exact Wr_of_RW h a ⟨h1, by omega⟩
-
 /-! ## the set family -/
 
 /-- **strset_s**: reads inside the string at dest cut at `dmax + 1`, writes inside the `dmax` cells -/
@@ -153,10 +137,6 @@ theorem wcstok_s_C02_partial (dest : Nat) (dmaxp : Option Nat) (delim : Nat) (pt
     (fun h => hdl h _)
 
 /-! ## witnesses -/
-
-/-- as `win`, the mapped cells also writable -/
-def winW (f : Nat → Nat) (lo₁ hi₁ lo₂ hi₂ : Nat) : St :=
-  { win f lo₁ hi₁ lo₂ hi₂ with wr := fun a => decide ((lo₁ ≤ a ∧ a < hi₁) ∨ (lo₂ ≤ a ∧ a < hi₂)) }
 
 /-- class `tail-read-after-full-loop` (`if (!*dest) memset(…)` of the set family, slack configuration): after `dmax`
 rounds over the unterminated array {'a','b'} the final pointer is `dest + 2` -/
